@@ -278,12 +278,13 @@ impl SnmpSocket for SnmpV3ClientSocket {
         self.auth_key.sign(buf.data_mut(), offset)
     }
 
-    fn unwrap_pdu<'a>(&'a mut self, msg: Self::Message<'a>) -> Option<SnmpPdu<'a>> {
+    fn unwrap_pdu<'a>(&'a mut self, msg: Self::Message<'a>, raw: &'a [u8]) -> Option<SnmpPdu<'a>> {
+        let has_priv = self.priv_key.has_priv();
         // Get and decode scoped pdu
-        let data = match msg.data {
-            MsgData::Plaintext(x) => x,
+        let (data, encrypted) = match msg.data {
+            MsgData::Plaintext(x) => (x, false),
             MsgData::Encrypted(x) => match self.priv_key.decrypt(x, &msg.usm) {
-                Ok(x) => x,
+                Ok(x) => (x, true),
                 Err(_) => return None, // Failed to decrypt
             },
         };
@@ -294,6 +295,19 @@ impl SnmpSocket for SnmpV3ClientSocket {
             && data.pdu.check(&self.request_id))
         {
             return None;
+        }
+        // RFC 3414 pp. 3.2: with an authentication key configured,
+        // accept only messages secured at the level of the session:
+        // flagged as authenticated, carrying a valid MAC
+        // and, when privacy is configured, encrypted.
+        // Only reports (engine discovery, usmStats*) may come unauthenticated.
+        if self.auth_key.has_auth() && !matches!(data.pdu, SnmpPdu::Report(_)) {
+            if !msg.flag_auth || !self.auth_key.verify(raw, msg.usm.auth_params) {
+                return None;
+            }
+            if has_priv && !encrypted {
+                return None;
+            }
         }
         // Update engine parameters
         self.engine_boots = msg.usm.engine_boots;
